@@ -3,8 +3,11 @@ import TaskModel.Gen.Remote
 Remote.Tie — the source text the Remote model was written from, as the fact extractor
 (extract/remote.go → `TaskModel.Gen.Remote`) reports it for the tree under test.  Each
 theorem compares a regenerated skeleton (normalised statement text, nesting as `| `, no line
-numbers) with the one the model mirrors; a change of a guard, of an order or of a returned
-error breaks the build of `Props.C20` until the model has been looked at again.
+numbers, long statements wrapped with `\\ ` continuations) with the one the model mirrors; a
+change of a guard, of an order or of a returned error breaks the build of `Props.C20` until the model has been looked at again.
+
+The comparisons are closed by `rfl` (kernel comparison of string literals, 0.3 s) rather than
+`decide` (same statement, 15 s through `String.decEq`).
 
 `remote_skeleton_ok` expects the **repaired** fallback (`if cacheFound`, fix F16); the tree
 as it was had `if ctx.Err() != nil && cacheFound` there.
@@ -47,7 +50,8 @@ theorem remote_skeleton_ok : Gen.Remote.skeleton = [
     "checksum := checksum(downloadedBytes)",
     "prompt := cache.ChecksumPrompt(checksum)",
     "if prompt != \"\"",
-    "| if err := func() error { r.promptMutex.Lock() defer r.promptMutex.Unlock() return r.promptf(prompt, node.Location()) }(); err != nil",
+    "| if err := func() error { r.promptMutex.Lock() defer r.promptMutex.Unlock() return",
+    "\\ r.promptf(prompt, node.Location()) }(); err != nil",
     "| | return nil, &errors.TaskfileNotTrustedError{URI: node.Location()}",
     "if err := cache.WriteChecksum(checksum); err != nil",
     "| return nil, err",
@@ -55,13 +59,13 @@ theorem remote_skeleton_ok : Gen.Remote.skeleton = [
     "| return nil, err",
     "if err = cache.Write(downloadedBytes); err != nil",
     "| return nil, err",
-    "return downloadedBytes, nil"] := by decide
+    "return downloadedBytes, nil"] := by rfl
 
 /-- every `RemoteNode` goes through `readRemoteNodeContent` -/
 theorem remote_readNodeContent_ok : Gen.Remote.readNodeContent = [
     "if node, isRemote := node.(RemoteNode); isRemote",
     "| return r.readRemoteNodeContent(ctx, node)",
-    "return node.Read()"] := by decide
+    "return node.Read()"] := by rfl
 
 /-- `needsPrompt`: no stored checksum, or a different one -/
 theorem remote_checksumPrompt_ok : Gen.Remote.checksumPrompt = [
@@ -72,12 +76,12 @@ theorem remote_checksumPrompt_ok : Gen.Remote.checksumPrompt = [
     "case cachedChecksum != checksum:",
     "| return taskfileChangedPrompt",
     "default:",
-    "| return \"\""] := by decide
+    "| return \"\""] := by rfl
 
 /-- a missing checksum file reads as the empty string (`Entry.sum = none`) -/
 theorem remote_readChecksum_ok : Gen.Remote.readChecksum = [
     "b, _ := os.ReadFile(node.checksumPath())",
-    "return string(b)"] := by decide
+    "return string(b)"] := by rfl
 
 /-- a missing or unparsable timestamp is the zero time (`cacheValid … = false`) -/
 theorem remote_readTimestamp_ok : Gen.Remote.readTimestamp = [
@@ -87,7 +91,7 @@ theorem remote_readTimestamp_ok : Gen.Remote.readTimestamp = [
     "timestamp, err := time.Parse(time.RFC3339, string(b))",
     "if err != nil",
     "| return time.Time{}.UTC()",
-    "return timestamp.UTC()"] := by decide
+    "return timestamp.UTC()"] := by rfl
 
 /-- `gate`: 105 when the node is created -/
 theorem remote_newHTTPNode_ok : Gen.Remote.newHTTPNode = [
@@ -97,7 +101,7 @@ theorem remote_newHTTPNode_ok : Gen.Remote.newHTTPNode = [
     "| return nil, err",
     "if url.Scheme == \"http\" && !insecure",
     "| return nil, &errors.TaskfileNotSecureError{URI: entrypoint}",
-    "return &HTTPNode{ BaseNode: base, URL: url, entrypoint: entrypoint, }, nil"] := by decide
+    "return &HTTPNode{ BaseNode: base, URL: url, entrypoint: entrypoint, }, nil"] := by rfl
 
 /-- `Fail.code`: which failure of the fetch carries which error; a dead context passes through unwrapped -/
 theorem remote_httpReadContext_ok : Gen.Remote.httpReadContext = [
@@ -115,13 +119,16 @@ theorem remote_httpReadContext_ok : Gen.Remote.httpReadContext = [
     "| return nil, errors.TaskfileFetchFailedError{URI: node.URL.String()}",
     "defer resp.Body.Close()",
     "if resp.StatusCode != http.StatusOK",
-    "| return nil, errors.TaskfileFetchFailedError{ URI: node.URL.String(), HTTPStatusCode: resp.StatusCode, }",
+    "| return nil, errors.TaskfileFetchFailedError{ URI: node.URL.String(), HTTPStatusCode:",
+    "\\ resp.StatusCode, }",
     "b, err := io.ReadAll(resp.Body)",
     "if err != nil",
     "| return nil, err",
-    "return b, nil"] := by decide
+    "return b, nil"] := by rfl
 
-/-- `gate`: the experiment switch comes after the node (hence after 105) was made -/
+/-- `gate`: the experiment switch is tested after the node was made and *replaces* the
+constructor's error (a failed `NewHTTPNode` leaves a typed-nil `*HTTPNode` in `node`, which passes
+`node.(RemoteNode)`): without the experiment the exit code is 1, not 105 -/
 theorem remote_newNode_ok : Gen.Remote.newNode = [
     "var node Node",
     "var err error",
@@ -136,8 +143,9 @@ theorem remote_newNode_ok : Gen.Remote.newNode = [
     "default:",
     "| node, err = NewFileNode(entrypoint, dir, opts...)",
     "if _, isRemote := node.(RemoteNode); isRemote && !experiments.RemoteTaskfiles.Enabled()",
-    "| return nil, errors.New(\"task: Remote taskfiles are not enabled. You can read more about this experiment and how to enable it at https://taskfile.dev/experiments/remote-taskfiles\")",
-    "return node, err"] := by decide
+    "| return nil, errors.New(\"task: Remote taskfiles are not enabled. You can read more about this",
+    "\\ experiment and how to enable it at https://taskfile.dev/experiments/remote-taskfiles\")",
+    "return node, err"] := by rfl
 
 /-- which flag reaches which reader option; one context with `--timeout` around the whole read; 108 -/
 theorem remote_readTaskfile_ok : Gen.Remote.readTaskfile = [
@@ -145,7 +153,11 @@ theorem remote_readTaskfile_ok : Gen.Remote.readTaskfile = [
     "defer cf()",
     "debugFunc := func(s string) { e.Logger.VerboseOutf(logger.Magenta, s) }",
     "promptFunc := func(s string) error { return e.Logger.Prompt(logger.Yellow, s, \"n\", \"y\", \"yes\") }",
-    "reader := taskfile.NewReader( taskfile.WithInsecure(e.Insecure), taskfile.WithDownload(e.Download), taskfile.WithOffline(e.Offline), taskfile.WithTempDir(e.TempDir.Remote), taskfile.WithCacheExpiryDuration(e.CacheExpiryDuration), taskfile.WithDebugFunc(debugFunc), taskfile.WithPromptFunc(promptFunc), )",
+    "reader := taskfile.NewReader( taskfile.WithInsecure(e.Insecure),",
+    "\\ taskfile.WithDownload(e.Download), taskfile.WithOffline(e.Offline),",
+    "\\ taskfile.WithTempDir(e.TempDir.Remote), taskfi",
+    "\\ le.WithCacheExpiryDuration(e.CacheExpiryDuration), taskfile.WithDebugFunc(debugFunc),",
+    "\\ taskfile.WithPromptFunc(promptFunc), )",
     "graph, err := reader.Read(ctx, node)",
     "if err != nil",
     "| if errors.Is(err, context.DeadlineExceeded)",
@@ -153,7 +165,7 @@ theorem remote_readTaskfile_ok : Gen.Remote.readTaskfile = [
     "| return err",
     "if e.Taskfile, err = graph.Merge(); err != nil",
     "| return err",
-    "return nil"] := by decide
+    "return nil"] := by rfl
 
 /-- `approves`: `--yes` first, then the terminal test, then the answer (`y`/`yes`) -/
 theorem remote_prompt_ok : Gen.Remote.prompt = [
@@ -164,7 +176,8 @@ theorem remote_prompt_ok : Gen.Remote.prompt = [
     "| return ErrNoTerminal",
     "if len(continueValues) == 0",
     "| return errors.New(\"no continue values provided\")",
-    "l.Outf(color, \"%s [%s/%s]: \", prompt, strings.ToLower(continueValues[0]), strings.ToUpper(defaultValue))",
+    "l.Outf(color, \"%s [%s/%s]: \", prompt, strings.ToLower(continueValues[0]),",
+    "\\ strings.ToUpper(defaultValue))",
     "reader := bufio.NewReader(l.Stdin)",
     "input, err := reader.ReadString('\\n')",
     "if err != nil",
@@ -172,18 +185,18 @@ theorem remote_prompt_ok : Gen.Remote.prompt = [
     "input = strings.TrimSpace(strings.ToLower(input))",
     "if !slices.Contains(continueValues, input)",
     "| return ErrPromptCancelled",
-    "return nil"] := by decide
+    "return nil"] := by rfl
 
 /-- `flagsOk` -/
 theorem remote_validateRemote_ok : Gen.Remote.validateRemote = [
     "if Download && Offline",
-    "if Download && ClearCache"] := by decide
+    "if Download && ClearCache"] := by rfl
 
 /-- `--clear-cache` acts after `Setup` (which reads the remote Taskfile) succeeded -/
 theorem remote_runClearCache_ok : Gen.Remote.runClearCache = [
     "if err := e.Setup(); err != nil",
     "if flags.ClearCache",
     "| cachePath := filepath.Join(e.TempDir.Remote, \"remote\")",
-    "| return os.RemoveAll(cachePath)"] := by decide
+    "| return os.RemoveAll(cachePath)"] := by rfl
 
 end TaskModel.Remote
